@@ -4,6 +4,7 @@ import (
 	"fmt"
 	"go/token"
 	"go/types"
+	"strings"
 
 	"golang.org/x/tools/go/ssa"
 )
@@ -259,6 +260,26 @@ func c10ServerNegotiate(r *Run, sn *ssa.Function) {
 						}
 					}
 					if noSet {
+						// … and answering with its own msize is only right when that does not exceed the client's
+						// proposal: the store sits on an edge implying ch.MSize() <= Tversion.MSize
+						facts := fa.FactsAt(st, lv)
+						okLe := false
+						for _, f := range facts {
+							for _, a := range f.L.Atoms {
+								if !(strings.Contains(a.K, "MessageTversion") && strings.HasSuffix(a.K, ".MSize")) {
+									continue
+								}
+								for _, f2 := range facts {
+									for _, g := range f2.L.Atoms {
+										if isMSizeGetter(g) && EntailsLE(facts, linAtom(g), linAtom(a)) {
+											okLe = true
+										}
+									}
+								}
+							}
+						}
+						r.Check(okLe, "rversion-msize", "servernegotiate: the server answers its own msize only when the client proposed at least that much", st.Pos(),
+							"on some path the reply carries the server's own msize although the client proposed less: the server answers (and keeps using) more than the client proposed", factStrings(facts)...)
 						r.Ok("rversion-msize", "servernegotiate: Rversion.MSize == uint32(ch.MSize()) (unchanged branch)", st.Pos(), "MSize = "+lm.String())
 						return
 					}
